@@ -88,10 +88,14 @@ run C24 && mut C24 x/pairing/keeper/reputation.go 'scaledScore = types.MinReputa
 run C24 && mut C24 x/pairing/types/qos_score.go '	qs.Score.Denom = qs.Score.Denom.Add(math.LegacyNewDec(weight))' '	qs.Score.Denom = qs.Score.Denom.Sub(math.LegacyNewDec(weight))'
 run C01 && mut C01 utils/lavaslices/slices.go '	slices.Sort(keys)
 ' ''
-run C14 && mut C14 x/fixationstore/types/fixationstore.go '		if entry.Block < lastEntry.DeleteAt || entry.Block <= ctxBlock {' '		if entry.Block < lastEntry.DeleteAt {'
-run C14 && mut C14 x/fixationstore/types/fixationstore.go '			if entry.IsStaleBy(ctxBlock) && !entry.IsDeletedBy(block) {
-				break
-			}' '			if entry.IsStaleBy(ctxBlock) && !entry.IsDeletedBy(block) {
-				continue
-			}'
+run C14 && mut C14 x/fixationstore/types/fixationstore.go '		if entry.Block < lastEntry.DeleteAt || entry.Block <= ctxBlock {' '		if entry.Block < lastEntry.DeleteAt || entry.Block < ctxBlock {'
+run C14 && mut C14 x/fixationstore/types/fixationstore.go '		latestEntry.IsLatest = false
+		fs.putEntry(ctx, latestEntry) // also saves updated latestEntry
+	}
+
+	// we are now the latest entry' '		latestEntry.IsLatest = false
+		fs.setEntry(ctx, latestEntry)
+	}
+
+	// we are now the latest entry'
 exit 0
